@@ -31,8 +31,9 @@ def c15_r1(ctx):
     inputs = [c for c in f.calls if c.path == "crypto::digest::Digest::input"]
     ctx.inst("read/input pair", reads[0].where)
     if len(reads) != 1 or len(inputs) != 1:
-        ctx.viol((f.id, "hasher-shape"), "expected exactly one read and one digest input in the file hasher (found %d/%d)" % (len(reads), len(inputs)), f.where(0))
-        return
+        # a hasher that accumulates or flushes in several places may well be right: this rule
+        # has no reader for it, so it does not judge it
+        raise AnalysisError("idiom not recognised: the file hasher has %d read and %d digest-input sites (the rule reads the one-read / one-input chunk loop only)" % (len(reads), len(inputs)))
     rd, inp = reads[0], inputs[0]
     if inp.self_ty != "crypto::sha2::Sha256":
         ctx.viol((f.id, "digest-type"), "the digest is %s, not SHA-256" % inp.self_ty, inp.where)
@@ -467,8 +468,19 @@ def c16_r2(ctx):
         ctx.inst("decode in %s" % f.id, c.where)
         err_e = f.edges_of_call_variant(c, "Err")
         _must_return_err(ctx, f, err_e, c.where, "a state file that does not decode")
-        # the bytes decoded are the whole file content read from the opened state file
-        bo = f.origins_of_operand(c.args[0])
+        # once the state file could be opened, a normal result comes from the decoder only
+        # (an opened file that is empty / short is a damaged file, not "no state yet")
+        opens = sys_calls(f, "open")
+        for op in opens:
+            ctx.inst("opened state file in %s" % f.id, op.where)
+            ok_e = f.edges_of_call_variant(op, "Ok")
+            errs = [bb for (bb, idx, rv, pl) in f.constructs("std::result::Result", "Err") if pl["local"] == 0] + \
+                   [c2.bb for c2 in f.calls if "from_residual" in c2.path]
+            r = f.reach([x for (_, x) in ok_e], avoid_blocks=errs + [c.bb])
+            if ok_e and any(b in r for b in f.return_blocks):
+                ctx.viol((f.id, "opened-state-file-not-decoded"), "a state file that exists can yield a normal result without being decoded (e.g. when it is empty): a truncated file is read as `no state yet` and overwritten", op.where)
+            else:
+                ctx.ok()
     # propagation chain
     R = Roles(ctx.P)
     serve = None
